@@ -5,6 +5,8 @@ From TS Require Import Model.Str Model.Outcome Model.Unicode Model.Types Model.P
 From TS Require Import Model.Lang.Swift Model.Lang.Python.
 From TS Require Proofs.C09Common Proofs.C09Recon Proofs.C09Refs Proofs.C09_KotlinFile Proofs.C09Witness Proofs.C09Final.
 From TS Require Proofs.C09_TypeScript Proofs.C09_Scala Proofs.C09_Python Proofs.C09_Swift Proofs.C09_Go Proofs.GoAcronyms Proofs.C09_GoAcr.
+From TS Require Import Model.Lang.Common Model.Collect Model.MultiFile Spec.C09MultiSpec.
+From TS Require Spec.C14Spec Proofs.C14Main Proofs.C14Front Proofs.C14Witness Proofs.C09Multi Proofs.C09MultiWitness Proofs.C09MultiTS Proofs.C09MultiC14.
 Import ListNotations.
 From TS Require Props.C09.
 
@@ -258,3 +260,111 @@ Goal Proofs.C09Witness.c09_nonvacuous Go [] Proofs.C09Witness.w_clean
     (go_file_decls uc_exec (Proofs.C09Witness.w_go []) (Proofs.C09Recon.c09_reconciled Proofs.C09Witness.w_clean)) = true.
 Proof. exact Props.C09.C09_Go_nonvacuous. Qed.
 Print Assumptions Props.C09.C09_Go_nonvacuous.
+Goal forall (cn : str) (rn : renames) (im : list imported) (t : rtype),
+    c09_type_ids (check_type cn rn im t) =
+    map (fun fi => (fst fi, match resolve_renamed cn rn im (snd fi) with Some r => r | None => snd fi end)) (c09_type_ids t).
+Proof. exact Props.C09.C09_multi_reconciled_ids. Qed.
+Print Assumptions Props.C09.C09_multi_reconciled_ids.
+Goal forall (ho : list imported -> list imported) (arrivals : list (str * parsed)),
+    Proofs.C14Front.oracle_ok ho -> c9m_ids_wf arrivals = true ->
+    forall (b : str) (pd' : parsed), In (b, pd') (multi_crates ho arrivals) ->
+    forall (tp' : c09_tpos) (form : c09_form) (i' : str),
+      In tp' (c09_tposs pd') -> In (form, i') (c09_type_ids (c9t_type tp')) ->
+      exists (tp : c09_tpos) (i : str),
+        c9t_owner tp' = c9t_owner tp /\ c9t_generics tp' = c9t_generics tp /\ c9t_pos tp' = c9t_pos tp /\
+        In (form, i) (c09_type_ids (c9t_type tp)) /\
+        (exists f, In (b, f) arrivals /\ In tp (c09_tposs f)) /\
+        (forall f, In (b, f) arrivals -> In tp (c09_tposs f) ->
+           c9m_known arrivals b f (c9t_generics tp) i = None ->
+           forall s, c9m_spelling arrivals b f (c9t_generics tp) i = Some s -> i' = s).
+Proof. exact Props.C09.C09_multi_reconciled_mentions. Qed.
+Print Assumptions Props.C09.C09_multi_reconciled_mentions.
+Goal Proofs.C09MultiWitness.wm_dom Proofs.C14Witness.ws_renamed = Some (true, None) /\
+  Proofs.C09MultiWitness.wm_dom Proofs.C14Witness.ws_renamed_path = Some (true, None) /\
+  Proofs.C09MultiWitness.wm_spec Proofs.C14Witness.ws_renamed Proofs.C14Witness.MY (lit "A2") = [(Some (lit "a"), Some (lit "A2Renamed"), None)] /\
+  Proofs.C09MultiWitness.wm_spec Proofs.C14Witness.ws_renamed_path Proofs.C14Witness.MY (lit "A2") = [(Some (lit "a"), Some (lit "A2Renamed"), None)] /\
+  Proofs.C09MultiWitness.wm_ts_text Proofs.C14Witness.ws_renamed Proofs.C14Witness.MY = Some Proofs.C09MultiWitness.MY_TS /\
+  Proofs.C09MultiWitness.wm_ts_text Proofs.C14Witness.ws_renamed_path Proofs.C14Witness.MY = Some Proofs.C09MultiWitness.MY_TS /\
+  match Proofs.C09MultiWitness.wm_ts_text Proofs.C14Witness.ws_renamed (lit "a") with
+  | Some t => contains_sub (lit "export interface A2Renamed {") t | None => false end = true.
+Proof. exact Props.C09.C09_multi_renamed_import_pin. Qed.
+Print Assumptions Props.C09.C09_multi_renamed_import_pin.
+Goal Proofs.C09MultiWitness.MY_TS =
+    (lit "import { A2Renamed } from ""./a"";" ++ [10%N; 10%N] ++
+     lit "export interface B1 {" ++ [10%N; 9%N] ++ lit "f: A2Renamed;" ++ [10%N] ++ lit "}" ++ [10%N; 10%N])%list.
+Proof. exact Props.C09.C09_multi_renamed_import_text. Qed.
+Print Assumptions Props.C09.C09_multi_renamed_import_text.
+Goal Proofs.C09MultiWitness.wm_dom Proofs.C09MultiWitness.ws_c09d = Some (true, None) /\
+  Proofs.C09MultiWitness.wm_spec Proofs.C09MultiWitness.ws_c09d (lit "b") (lit "A2") = [(Some (lit "b"), Some (lit "A2"), None)] /\
+  Proofs.C09MultiWitness.wm_ts_text Proofs.C09MultiWitness.ws_c09d (lit "b") =
+    Some (lit "import { A1, A2Renamed, A3 } from ""./a"";" ++ [10%N; 10%N] ++
+          lit "export interface A2 {" ++ [10%N; 9%N] ++ lit "z: number;" ++ [10%N] ++ lit "}" ++ [10%N; 10%N] ++
+          lit "export interface B1 {" ++ [10%N; 9%N] ++ lit "f: A2;" ++ [10%N] ++ lit "}" ++ [10%N; 10%N])%list.
+Proof. exact Props.C09.C09_multi_local_shadows_glob_pin. Qed.
+Print Assumptions Props.C09.C09_multi_local_shadows_glob_pin.
+Goal Proofs.C09MultiWitness.wm_dom Proofs.C14Witness.ws_glob_renamed = Some (true, Some "C09-multi-glob-renamed"%string) /\
+  Proofs.C09MultiWitness.wm_spec Proofs.C14Witness.ws_glob_renamed Proofs.C14Witness.MY (lit "A2") =
+    [(Some (lit "a"), Some (lit "A2Renamed"), Some "C09-multi-glob-renamed"%string)] /\
+  Proofs.C09MultiWitness.wm_ts_text Proofs.C14Witness.ws_glob_renamed Proofs.C14Witness.MY =
+    Some (lit "import { A1, A2Renamed, A3 } from ""./a"";" ++ [10%N; 10%N] ++
+          lit "export interface B1 {" ++ [10%N; 9%N] ++ lit "f: A2;" ++ [10%N] ++ lit "}" ++ [10%N; 10%N])%list.
+Proof. exact Props.C09.C09_multi_glob_renamed_refuted. Qed.
+Print Assumptions Props.C09.C09_multi_glob_renamed_refuted.
+Goal Proofs.C09MultiWitness.wm_kt_text [] Proofs.C14Witness.ws_renamed Proofs.C14Witness.MY =
+    Some (lit "package p.my_crate" ++ [10%N; 10%N] ++ lit "import kotlinx.serialization.Serializable" ++ [10%N] ++
+          lit "import kotlinx.serialization.SerialName" ++ [10%N; 10%N] ++ lit "import p.a.A2Renamed" ++ [10%N; 10%N] ++
+          lit "@Serializable" ++ [10%N] ++ lit "data class B1 (" ++ [10%N; 9%N] ++ lit "val f: A2Renamed" ++ [10%N] ++ lit ")" ++ [10%N; 10%N])%list /\
+  match Proofs.C09MultiWitness.wm_kt_text (lit "KP") Proofs.C14Witness.ws_renamed Proofs.C14Witness.MY with
+  | Some t => contains_sub (lit "val f: KPA2Renamed") t && contains_sub (lit "import p.a.A2Renamed") t
+  | None => false
+  end = true /\
+  match Proofs.C09MultiWitness.wm_kt_text (lit "KP") Proofs.C14Witness.ws_renamed (lit "a") with
+  | Some t => contains_sub (lit "data class KPA2Renamed (") t | None => false end = true.
+Proof. exact Props.C09.C09_multi_renamed_import_kotlin_pin. Qed.
+Print Assumptions Props.C09.C09_multi_renamed_import_kotlin_pin.
+Goal forall (uc : unicode) (cfg : ts_config) (ho : list imported -> list imported) (arrivals : list (str * parsed)),
+    Proofs.C14Front.oracle_ok ho -> c9m_ids_wf arrivals = true ->
+    forall (b : str) (pd' : parsed), In (b, pd') (multi_crates ho arrivals) ->
+    forall (st : ts_state) (im : scoped) (text : str) (st' : ts_state),
+      ts_generate_multi uc cfg st im pd' = Ok (text, st') ->
+      exists ds : list ts_decl,
+        text = (ts_begin_file cfg ++ ts_write_imports im ++ List.concat (map ts_render_decl ds) ++ ts_end_file st')%list /\
+        Forall (fun d => (c09_is_def (ts_obs d) = true -> c9m_def_ok arrivals b [] (d_name (ts_obs d))) /\
+                         (forall r, In r (c09_decl_refs TypeScript (ts_obs d)) -> c9m_ref_ok arrivals b [] r)) ds.
+Proof. exact Props.C09.C09_multi_TypeScript. Qed.
+Print Assumptions Props.C09.C09_multi_TypeScript.
+Goal forall (uc : unicode) (cfg : ts_config) (ho : list imported -> list imported) (arrivals : list (str * parsed)),
+    Proofs.C14Front.oracle_ok ho -> c9m_ids_wf arrivals = true ->
+    forall (b : str) (pd' : parsed), In (b, pd') (multi_crates ho arrivals) ->
+    forall (it' : ritem) (d : ts_decl) (s1 s2 : ts_state),
+      In it' (items_of pd') -> ts_decl_of uc cfg it' s1 = Ok (d, s2) ->
+      (c09_is_def (ts_obs d) = true -> c9m_def_ok arrivals b [] (d_name (ts_obs d))) /\
+      (forall r, In r (c09_decl_refs TypeScript (ts_obs d)) -> c9m_ref_ok arrivals b [] r).
+Proof. exact Props.C09.C09_multi_TypeScript_item. Qed.
+Print Assumptions Props.C09.C09_multi_TypeScript_item.
+Goal forall (uc : unicode) (T ign : list str) (ho_file : list imported -> list imported) (ws : list ws_entry) (arrivals : list (str * parsed)),
+    parse_workspace uc T ign ho_file ws = Ok arrivals ->
+    forall d n, c9m_two_names arrivals d n = false ->
+      Spec.C14Spec.renamed_in (Proofs.C14Main.c14_infos uc T ws) d n = c9m_emitted_name arrivals d n.
+Proof. exact Props.C09.C09_multi_emitted_name_is_import_name. Qed.
+Print Assumptions Props.C09.C09_multi_emitted_name_is_import_name.
+Goal forall (uc : unicode), unicode_ok uc ->
+  forall (cfg : ts_config) (T ign : list str) (ho_file ho_crate : list imported -> list imported) (hc : crate_types -> crate_types)
+         (ws : list ws_entry) (arrivals : list (str * parsed)),
+    parse_workspace uc T ign ho_file ws = Ok arrivals ->
+    Proofs.C14Front.oracle_ok ho_file -> Proofs.C14Front.oracle_ok ho_crate -> Proofs.C14Front.oracle_ok hc ->
+    c9m_ids_wf arrivals = true ->
+    forall c pd, In (c, pd) (multi_crates ho_crate arrivals) ->
+    let imports := crate_imports hc (multi_crates ho_crate arrivals) c pd in
+    forall st text st', ts_generate_multi uc cfg st imports pd = Ok (text, st') ->
+      (exists ds : list ts_decl,
+         text = (ts_begin_file cfg ++ ts_write_imports imports ++ List.concat (map ts_render_decl ds) ++ ts_end_file st')%list /\
+         Forall (fun d => (c09_is_def (ts_obs d) = true -> c9m_def_ok arrivals c [] (d_name (ts_obs d))) /\
+                          (forall r, In r (c09_decl_refs TypeScript (ts_obs d)) -> c9m_ref_ok arrivals c [] r)) ds) /\
+      (forall v, In v (Spec.C14Spec.judge_crate (Proofs.C14Main.c14_infos uc T ws) ign c (scoped_pairs imports)) ->
+         Spec.C14Spec.rv_dom v = true ->
+         Spec.C14Spec.rv_imported v = true /\
+         (c9m_two_names arrivals (Spec.C14Spec.rv_from v) (Spec.C14Spec.rv_name v) = false ->
+          Spec.C14Spec.rv_generated_name v = c9m_emitted_name arrivals (Spec.C14Spec.rv_from v) (Spec.C14Spec.rv_name v))).
+Proof. exact Props.C09.C09_multi_TypeScript_spelled_and_imported. Qed.
+Print Assumptions Props.C09.C09_multi_TypeScript_spelled_and_imported.
